@@ -347,7 +347,7 @@ func clParseSession(args []string) (*clSession, bool) {
 
 // clKeyPub extracts the Ed25519 public key from a verifier key "<name>+<hash>+<base64(alg ‖ key)>".
 func clKeyPub(vkey string) []byte {
-	p := strings.Split(strings.TrimSpace(vkey), "+")
+	p := strings.SplitN(strings.TrimSpace(vkey), "+", 3)
 	if len(p) != 3 {
 		return nil
 	}
